@@ -1,9 +1,19 @@
 #!/bin/bash
-# tools/seedall.sh [ids...]: run every seeded change (default: all) against its target property's quick
-# check, one after the other (each is applied to /repo and undone by tools/seedtest.py); prints one line each.
+# tools/seedall.sh [-j N] [ids...]: run every seeded change (default: all) against its target property's quick
+# check; prints one line each.  Without -j each change is applied to /repo and undone by tools/seedtest.py, one
+# after the other; with -j N each is applied to a scratch copy of /repo (tools/seedtest.py --copy) and N run
+# side by side.
 cd "$(dirname "$0")/.."
+jobs=0
+if [ "$1" = "-j" ]; then jobs=$2; shift 2; fi
 ids="$@"; [ -z "$ids" ] && ids=$(ls seeded | grep -E '^[C-Z][0-9]+$')
-for d in $ids; do
-  r=$(timeout 2400 python3 tools/seedtest.py "$PWD/seeded/$d" 2>&1 | tail -1 | cut -c1-90)
-  echo "$d: $r"
-done
+one() {
+  r=$(timeout 2400 python3 tools/seedtest.py "$PWD/seeded/$1" $2 2>&1 | tail -1 | cut -c1-90)
+  echo "$1: $r"
+}
+export -f one
+if [ "$jobs" -gt 0 ]; then
+  printf '%s\n' $ids | xargs -P "$jobs" -I{} bash -c 'one {} --copy'
+else
+  for d in $ids; do one "$d" ""; done
+fi
